@@ -27,4 +27,6 @@ void bvp_print_hex(const unsigned char *p, size_t n);      /* prints "-" when n=
 /* op tables, one per file */
 extern struct op_entry ops_bits[];
 void bits_reset(void);
+extern struct op_entry ops_template[];
+void template_reset(void);
 #endif
